@@ -138,4 +138,51 @@ theorem mm_eq_iff' (a b : MM) (ha : (a.map (·.1)).Nodup) (hb : (b.map (·.1)).N
         rw [this] at hperm
         exact ⟨ws, rfl, hperm.length_eq, hperm⟩
 
+/-! ### unordered_set / unordered_map equality -/
+
+theorem key_inj (b : List Item) (hb : (b.map (·.1)).Nodup) (x y : Item) (hx : x ∈ b) (hy : y ∈ b) (h : x.1 = y.1) : x = y := by
+  induction b with
+  | nil => cases hx
+  | cons e t ih =>
+    simp only [map_cons, nodup_cons, mem_map, not_exists, not_and] at hb
+    rcases mem_cons.mp hx with rfl | hx' <;> rcases mem_cons.mp hy with rfl | hy'
+    · rfl
+    · exact absurd h.symm (hb.1 y hy')
+    · exact absurd h (hb.1 x hx')
+    · exact ih hb.2 hx' hy'
+
+theorem nodup_of_keys (a : List Item) (ha : (a.map (·.1)).Nodup) : a.Nodup :=
+  Pairwise.of_map (·.1) (fun _ _ h hab => h (hab ▸ rfl)) ha
+
+theorem usetEq_iff' (a b : List Item) (ha : (a.map (·.1)).Nodup) (hb : (b.map (·.1)).Nodup) :
+    usetEq a b = true ↔ a.Perm b := by
+  unfold usetEq
+  simp only [Bool.and_eq_true, beq_iff_eq, all_eq_true]
+  constructor
+  · intro ⟨hlen, hall⟩
+    apply Subperm.perm_of_length_le
+    · apply subperm_of_subset (nodup_of_keys a ha)
+      intro e he
+      have := hall e he
+      cases hf : b.find? (fun x => x.1 == e.1) with
+      | none => rw [hf] at this; cases this
+      | some x =>
+        rw [hf] at this
+        have hx : x = e := by simpa using this
+        rw [← hx]; exact mem_of_find?_eq_some hf
+    · omega
+  · intro hp
+    refine ⟨hp.length_eq, ?_⟩
+    intro e he
+    have heb : e ∈ b := hp.subset he
+    cases hf : b.find? (fun x => x.1 == e.1) with
+    | none =>
+      have := find?_eq_none.mp hf e heb
+      simp at this
+    | some x =>
+      have hxb := mem_of_find?_eq_some hf
+      have hk := find?_some hf
+      have : x = e := key_inj b hb x e hxb heb (by simpa using hk)
+      simp [this]
+
 end Momo.StdWrap
